@@ -82,6 +82,35 @@ def main(chk):
         ev["id"] = len(events) + 1
         events.append(ev)
         chk.count("plain" if st["plain"] else "non_plain")
+    # random plain values nested up to 4 containers deep, and the same with one member of another kind
+    # put at a random position (element, dict value, dict key): what the small universe cannot hold
+    from . import deep
+    foreign_any = [am.VObj(c, [], []) for c in ("tuple0", "tuple12", "set1", "frozenset1", "bytearray_ab", "Decimal1",
+                                                "Fraction12", "complex1", "range3", "object_a", "type_int")] + \
+                  [{"k": "uuid", "ver": 1, "id": 0}, {"k": "ellipsis"}]
+    unhashable = ("set1", "bytearray_ab")
+    nrand = 1500 if quick else 20000
+    for i in range(nrand):
+        v = deep.rand_plain_value(chk.rng, 2 + i % 3)
+        kind = "deep_plain"
+        if i % 3 == 2:
+            member = chk.rng.choice(foreign_any)
+            v = deep.inject(chk.rng, v, member, as_key_ok=member.get("cls") not in unhashable)
+            kind = "deep_non_plain"
+        try:
+            v_real = am.g_value(v)
+            v_abs = am.a_value(v_real)
+        except (am.Unrepresentable, TypeError):
+            chk.count("value_not_concretisable")
+            continue
+        k = valgen.key(v_abs)
+        if k in seen:
+            continue
+        seen.add(k)
+        ev = observe(v_abs, v_real, 25 if quick else 60, chk.rng)
+        ev["id"] = len(events) + 1
+        events.append(ev)
+        chk.count(kind)
     chk.require(chk.counts.get("plain", 0) >= 300 and chk.counts.get("non_plain", 0) >= 300,
                 "value mix too thin: %r" % chk.counts)
     slim = [{k: e[k] for k in ("id", "v", "exc", "rep", "r", "acc", "gens", "probes")} for e in events]
